@@ -426,6 +426,9 @@ def check(ctx):
         ctx.unit('strategies')
         nflag += classify_marker(ctx, ci, fi, regex)
     check_pack_and_ctor(ctx)
+    # the generated code reads constant-size byte strings as strictly as the field loop
+    from .c04 import check_templates_decode
+    check_templates_decode(ctx, 'C06-generated-decode-strict')
     ctx.unit('flag_paths', nflag)
     ctx.floor('Data unpack strategies analysed', ctx.units.get('strategies', 0), 5)
     ctx.floor('(include, consume, window) paths', nflag, 10)
